@@ -246,9 +246,9 @@ def units(prop, tier):
 #   for good arguments a ValueError can only come from p.inverse(q), i.e. gcd(p, q) != 1 -- impossible for primes, not excludable for
 #   "probable primes" without a primality axiom (on_raise clause says exactly this).  Termination is not claimed.
 #   Mutants (tools/mut.py C05 lib/Crypto/PublicKey/RSA.py ... --only key.rsa.generate):
-#     drop `if size_q != size_p: min_p = ...` (seeded change)       exit 1  generate.loop_inv_entry.ival_p_spec_integer_isqrt_pow2_2_bits_bits_2_1 (p's own FIPS margin)
+#     drop `if size_q != size_p: min_p = ...` (seeded change)       exit 1  generate.assert_after_call.ival_result_spec_integer_isqrt_pow2_2_size_p_1 (p's own FIPS margin; witness bits=1025)
 #     guard `or` -> `and`                                            exit 1  generate.loop_exit.bitlen_ival_n_bits / loop_exit.ival_d_pow2_bits_2 (exit_gives: guard alone)
-#     `bits // 2 - 100` -> `- 10`                                     exit 1  generate.loop_inv_entry.abs_ival_p_ival_q_pow2_bits_2_100
+#     `bits // 2 - 100` -> `- 10`                                     exit 1  generate.assert_after_call.abs_ival_result_ival_p_pow2_bits_2_100
 #     a local of the loop renamed (lcm -> the_lcm)                   exit 2  (the loop spec types every loop-carried local: translate undecided)
 #     an unused local added                                          exit 0
 # NOT PROVED: RSA.construct with a 3-tuple (n, e, d): the factor-recovery loops (`while t % 2 == 0`, `while not spotted and a < 100`, `while k < ktot`)
